@@ -204,7 +204,9 @@ def checkCaseLib (c : Case) : CaseResult :=
   else { verdict := .ok, nontrivial := ops ≥ 3, stats := stats }
 
 def checkCase (c : Case) : CaseResult :=
-  if c.tag == "router-hist" || c.tag.startsWith "kf-" then checkCaseRouter c else checkCaseLib c
+  -- kf-* cases of the other libraries carry a `lib` line and no Router history
+  if c.tag == "router-hist" || (c.tag.startsWith "kf-" && (c.get "lib").size == 0) then checkCaseRouter c
+  else checkCaseLib c
 
 def run (_args : List String) : IO UInt32 := runCases checkCase
 
